@@ -1,0 +1,162 @@
+//go:build verif
+
+package NoKV
+
+import (
+	"fmt"
+	"sort"
+
+	"github.com/feichai0017/NoKV/kv"
+	"github.com/feichai0017/NoKV/utils"
+)
+
+// Verification-only accessors for the value log (build tag `verif`). They expose the
+// unexported GC entry points and the on-disk shape of the value log to the out-of-tree
+// correspondence harness; they add no behaviour to the engine.
+
+// VerifVlogRecord is one decoded value-log record together with its position.
+type VerifVlogRecord struct {
+	CF      kv.ColumnFamily
+	UserKey []byte
+	Version uint64
+	Value   []byte
+	Meta    byte
+	Offset  uint32
+	Len     uint32
+}
+
+// VerifVlogFiles lists the file ids of every bucket (ascending) as the managers see them.
+func (db *DB) VerifVlogFiles() [][]uint32 {
+	out := make([][]uint32, len(db.vlog.managers))
+	for b, mgr := range db.vlog.managers {
+		if mgr == nil {
+			continue
+		}
+		out[b] = mgr.ListFIDs()
+	}
+	return out
+}
+
+// VerifVlogActive returns the active file id and the write offset of a bucket.
+func (db *DB) VerifVlogActive(bucket uint32) (uint32, uint32, error) {
+	mgr, err := db.vlog.managerFor(bucket)
+	if err != nil {
+		return 0, 0, err
+	}
+	h := mgr.Head()
+	return h.Fid, h.Offset, nil
+}
+
+// VerifVlogManifest lists the (fid, valid) pairs the manifest tracks for a bucket, by fid.
+func (db *DB) VerifVlogManifest(bucket uint32) (fids []uint32, valid []bool) {
+	status := db.lsm.ValueLogStatus()
+	for id := range status {
+		if id.Bucket == bucket {
+			fids = append(fids, id.FileID)
+		}
+	}
+	sort.Slice(fids, func(i, j int) bool { return fids[i] < fids[j] })
+	for _, fid := range fids {
+		for id, meta := range status {
+			if id.Bucket == bucket && id.FileID == fid {
+				valid = append(valid, meta.Valid)
+			}
+		}
+	}
+	return fids, valid
+}
+
+// VerifVlogRecords decodes every record of one value-log file.
+func (db *DB) VerifVlogRecords(bucket, fid uint32) ([]VerifVlogRecord, error) {
+	mgr, err := db.vlog.managerFor(bucket)
+	if err != nil {
+		return nil, err
+	}
+	var out []VerifVlogRecord
+	_, err = mgr.Iterate(fid, 0, func(e *kv.Entry, vp *kv.ValuePtr) error {
+		cf, uk, ts := kv.SplitInternalKey(e.Key)
+		out = append(out, VerifVlogRecord{CF: cf, UserKey: kv.SafeCopy(nil, uk), Version: ts,
+			Value: kv.SafeCopy(nil, e.Value), Meta: e.Meta, Offset: vp.Offset, Len: vp.Len})
+		return nil
+	})
+	return out, err
+}
+
+// VerifVlogRewrite runs valueLog.rewrite on one sealed file synchronously (the step of
+// doRunGC after sampling).  rewrite panics on the active file; that is reported as an error.
+func (db *DB) VerifVlogRewrite(bucket, fid uint32) (err error) {
+	mgr, merr := db.vlog.managerFor(bucket)
+	if merr != nil {
+		return merr
+	}
+	if fid >= mgr.ActiveFID() {
+		return fmt.Errorf("verif: fid %d is not below the active fid %d", fid, mgr.ActiveFID())
+	}
+	found := false
+	for _, f := range mgr.ListFIDs() {
+		if f == fid {
+			found = true
+		}
+	}
+	if !found {
+		return fmt.Errorf("verif: fid %d not found", fid)
+	}
+	defer func() {
+		if r := recover(); r != nil {
+			err = fmt.Errorf("verif: rewrite panicked: %v", r)
+		}
+	}()
+	return db.vlog.rewrite(bucket, fid)
+}
+
+// VerifVlogDoRunGC runs valueLog.doRunGC (sampling, discard-ratio guard, rewrite) on one file.
+func (db *DB) VerifVlogDoRunGC(bucket, fid uint32, discardRatio float64) (err error) {
+	mgr, merr := db.vlog.managerFor(bucket)
+	if merr != nil {
+		return merr
+	}
+	if fid >= mgr.ActiveFID() {
+		return fmt.Errorf("verif: fid %d is not below the active fid %d", fid, mgr.ActiveFID())
+	}
+	defer func() {
+		if r := recover(); r != nil {
+			err = fmt.Errorf("verif: doRunGC panicked: %v", r)
+		}
+	}()
+	return db.vlog.doRunGC(bucket, fid, discardRatio)
+}
+
+// VerifVlogLookup returns what the LSM stores under one internal key: found, whether it is a
+// value pointer, the pointer, the raw meta byte and the version of the entry that answered.
+func (db *DB) VerifVlogLookup(cf kv.ColumnFamily, key []byte, version uint64) (found bool, isPtr bool, vp kv.ValuePtr, meta byte, ver uint64, inline []byte, err error) {
+	entry, gerr := db.lsm.Get(kv.InternalKey(cf, key, version))
+	if gerr != nil {
+		if gerr == utils.ErrKeyNotFound {
+			return false, false, vp, 0, 0, nil, nil
+		}
+		return false, false, vp, 0, 0, nil, gerr
+	}
+	if entry == nil {
+		return false, false, vp, 0, 0, nil, nil
+	}
+	defer entry.DecrRef()
+	if kv.IsValuePtr(entry) {
+		vp.Decode(entry.Value)
+		return true, true, vp, entry.Meta, entry.Version, nil, nil
+	}
+	return true, false, vp, entry.Meta, entry.Version, kv.SafeCopy(nil, entry.Value), nil
+}
+
+// VerifVlogAppendOrphan appends one record to the value log exactly as the first half of the
+// commit pipeline does (valueLog.write) and stops there: no WAL record, no LSM entry, no head
+// update.  After a reopen this is the on-disk image of a process crash between
+// commitWorker's vlog.write and applyRequests.
+func (db *DB) VerifVlogAppendOrphan(cf kv.ColumnFamily, key []byte, version uint64, value []byte) (kv.ValuePtr, error) {
+	e := kv.NewEntryWithCF(cf, kv.InternalKey(cf, key, version), kv.SafeCopy(nil, value))
+	defer e.DecrRef()
+	vp, err := db.vlog.newValuePtr(e)
+	if err != nil {
+		return kv.ValuePtr{}, err
+	}
+	return *vp, nil
+}
